@@ -116,7 +116,20 @@ impl PartialOrd for Numeric {
         } else if self.is_no_unit() || other.is_no_unit() {
             self.value.partial_cmp(&other.value)
         } else if let Some(scaled) = other.as_unitset(&self.unit) {
-            self.value.partial_cmp(&scaled)
+            use std::cmp::Ordering::Equal;
+            // Rounding differs between converting other to the unit
+            // of self or self to the unit of other, so consider both
+            // to keep the comparison symmetric.
+            let cmp = self.value.partial_cmp(&scaled);
+            if cmp != Some(Equal)
+                && self.as_unitset(&other.unit).is_some_and(|scaled| {
+                    scaled.partial_cmp(&other.value) == Some(Equal)
+                })
+            {
+                Some(Equal)
+            } else {
+                cmp
+            }
         } else {
             None
         }
